@@ -1,5 +1,7 @@
 (* C03 -- Trigger placement: actions fire at exactly the configured locations. *)
 From Deep Require Import Base Config Limiter Cond Match MatchProofs Handler HandlerProofs.
+From DeepGen Require Import PMatch.
+From Deep Require Import TieMatch.
 From Coq Require Import Permutation.
 
 (* a line tracepoint matches exactly the line events of that file and line; a named method tracepoint
@@ -68,3 +70,19 @@ Theorem C03_each_tracepoint_on_its_own :
   fst (run_events (l1 ++ (l, a) :: l2) st es) (ha_id a) = fst (run (ha_lim a) (st (ha_id a)) (own_hits l a es)).
 Proof. intros. apply action_sees_only_its_own_hits; assumption. Qed.
 Print Assumptions C03_each_tracepoint_on_its_own.
+
+(* ---- tie by translation: LineLocation.at_location / FunctionLocation.at_location as they are in /repo/src NOW
+   (gen/Pure.v is regenerated on every run) match exactly the events the property names, and are the model's at_loc *)
+Theorem C03_the_code_matches_exactly :
+  forall p n fname ev f ln fn,
+  (gen_line_at_location p n ev f ln fn = true <-> ev = [108; 105; 110; 101] /\ f = p /\ ln = n) /\
+  (gen_func_at_location p fname ev f ln fn = true <-> ev = [99; 97; 108; 108] /\ f = p /\ fn = fname).
+Proof. intros. split; [apply code_line_match | apply code_func_match]. Qed.
+Print Assumptions C03_the_code_matches_exactly.
+
+Theorem C03_the_code_is_the_model :
+  forall p n f e,
+  gen_line_at_location p n (kind_name (e_kind e)) (e_file e) (e_line e) (e_func e) = at_loc (LLine p n) e /\
+  gen_func_at_location p f (kind_name (e_kind e)) (e_file e) (e_line e) (e_func e) = at_loc (LFunc p (Some f)) e.
+Proof. intros. split; [apply tie_line_at_location | apply tie_func_at_location]. Qed.
+Print Assumptions C03_the_code_is_the_model.
